@@ -574,7 +574,7 @@ def rawSeek (ph : Phys) (pos : Int) : M Int := do
           let mut work2 := work1
           if vf.ready ≥ STREAMSET ∧ vf.current_serialno ≠ og.serial ∧ og.bos then
             decodeClear
-            work2 := OStream.cleared
+            work2 := work1.reset
           let vf ← get
           if vf.ready < STREAMSET then
             match linkOf vf og.serial with
